@@ -131,3 +131,27 @@ func init() {
 		os.WriteFile("/tmp/c03/stream.webp", riffwalk.RIFF(riffwalk.ChunkBytes("VP8L", b)), 0o644)
 	}})
 }
+
+func init() {
+	fw.Register(&fw.Check{ID: "DBG4", Level: "other", Run: func(e *fw.Env, r *fw.Result) {
+		pin()
+		raw, _ := os.ReadFile(e.Args[0])
+		var v fw.Violation
+		json.Unmarshal(raw, &v)
+		var rp c04Replay
+		json.Unmarshal(v.Replay, &rp)
+		b, _ := hex.DecodeString(rp.Hex)
+		dec, w, h, y, ys, _, _, _, err := lossy.DecodeFrame(b)
+		if err != nil {
+			fmt.Println("err", err)
+			return
+		}
+		defer lossy.ReleaseDecoder(dec)
+		var out []byte
+		for j := 0; j < h; j++ {
+			out = append(out, y[j*ys:j*ys+w]...)
+		}
+		fmt.Println(rp.Desc)
+		fmt.Println("Y digest", fw.Digest(out), "first row", out[:w])
+	}})
+}
